@@ -1,1 +1,254 @@
-(* placeholder: to be written *)
+(** C14 — Router: one pair per token pair, registered pairs only, pass-through multi-hop.
+    Statements only; proofs are in Proofs/RouterProofs.v.
+
+    Vocabulary (Model/Router.v): [r_map] is pair_map in iteration order, [get_pair] the view getPair
+    (None = zero address), [all_pairs] the view getAllPairsManagedAddresses, [w_pairs] every pair
+    contract that exists (deployed by the router or not) with the tokens it reports, [w_led] the
+    ESDT balances of router / users / owner.  [Reachable w]: w is the result of ANY finite sequence
+    of operations (router endpoints by any caller in any argument order, direct pair calls, foreign
+    pair deployments, transfers, block progress) from a freshly deployed router.
+    [uo_eq k1 k2]: the token pairs k1, k2 are equal up to order.
+    [Registered w a]: a is the pair_map entry for the tokens the contract at a reports
+    (config.rs check_is_pair_sc). *)
+From MX Require Import Base.Prelude Gen.Params Model.Pair Model.Router
+  Proofs.PairInv Proofs.PairChar Proofs.RouterProofs.
+
+(** ------------------------------------------------------------------ 1. the registry *)
+(** at most one pair per unordered token pair, in every reachable world *)
+Theorem C14_one_pair_per_token_pair : forall w, Reachable w -> forall a b x c d y,
+  In (a, b, x) (r_map (w_r w)) -> In (c, d, y) (r_map (w_r w)) -> uo_eq (a, b) (c, d) ->
+  (a, b, x) = (c, d, y).
+Proof. exact reach_one_per_pair. Qed.
+Print Assumptions C14_one_pair_per_token_pair.
+
+(** lookups are order-insensitive *)
+Theorem C14_lookup_order_insensitive : forall w, Reachable w -> forall a b,
+  get_pair (r_map (w_r w)) a b = get_pair (r_map (w_r w)) b a.
+Proof. exact reach_lookup_sym. Qed.
+Print Assumptions C14_lookup_order_insensitive.
+
+(** getPair answers exactly the stored entries, whichever way round the tokens are given *)
+Theorem C14_lookup_exact : forall w, Reachable w -> forall a b x,
+  get_pair (r_map (w_r w)) a b = Some x <->
+  (In (a, b, x) (r_map (w_r w)) \/ In (b, a, x) (r_map (w_r w))).
+Proof. exact reach_lookup_char. Qed.
+Print Assumptions C14_lookup_exact.
+
+(** getAllPairsManagedAddresses has no duplicates: one contract per token pair; every listed
+    address is a pair contract reporting exactly the tokens of its key, distinct from each other *)
+Theorem C14_listed_pairs_distinct_and_consistent : forall w, Reachable w ->
+  NoDup (all_pairs (r_map (w_r w))) /\
+  forall a b x, In (a, b, x) (r_map (w_r w)) ->
+    a <> b /\ exists pe, pair_at (w_pairs w) x = Some pe /\ pe_t1 pe = a /\ pe_t2 pe = b.
+Proof. exact reach_listed. Qed.
+Print Assumptions C14_listed_pairs_distinct_and_consistent.
+
+(** ------------------------------------------------------------------ 2. creation / removal *)
+(** createPair succeeds only for the owner or with public creation enabled, on an active router,
+    for two different tokens that have no pair yet in either order; a non-owner gets the default fees *)
+Theorem C14_create_guard : forall w c a b adder fees na w' o,
+  ep_create_pair w c a b adder fees na = Ok (w', o) ->
+  r_active (w_r w) = true /\ (c = r_owner (w_r w) \/ r_creation (w_r w) = true) /\ a <> b /\
+  get_pair (r_map (w_r w)) a b = None /\ get_pair (r_map (w_r w)) b a = None /\
+  o = [na] /\ pair_at (w_pairs w) na = None /\
+  r_map (w_r w') = r_map (w_r w) ++ [(a, b, na)] /\
+  exists pe, pair_at (w_pairs w') na = Some pe /\ pe_t1 pe = a /\ pe_t2 pe = b /\ pe_lp pe = false /\
+             p_state (pe_p pe) = ST_Inactive /\ p_S (pe_p pe) = 0 /\
+             (c <> r_owner (w_r w) ->
+              p_fee (pe_p pe) = ROUTER_DEFAULT_TOTAL_FEE_PERCENT /\
+              p_sfee (pe_p pe) = ROUTER_DEFAULT_SPECIAL_FEE_PERCENT).
+Proof. exact create_pair_guard. Qed.
+Print Assumptions C14_create_guard.
+
+(** ... and the new contract is then what getPair returns for both token orders, listed last *)
+Theorem C14_create_registers : forall w c a b adder fees na w' o, Reachable w ->
+  ep_create_pair w c a b adder fees na = Ok (w', o) ->
+  get_pair (r_map (w_r w')) a b = Some na /\ get_pair (r_map (w_r w')) b a = Some na /\
+  all_pairs (r_map (w_r w')) = all_pairs (r_map (w_r w)) ++ [na] /\
+  ~ In na (all_pairs (r_map (w_r w))) /\ Registered w' na.
+Proof. exact reach_create_registers. Qed.
+Print Assumptions C14_create_registers.
+
+(** removePair (owner only) takes the pair out for both token orders and returns its address *)
+Theorem C14_remove : forall w c a b w' o, Reachable w ->
+  ep_remove_pair w c a b = Ok (w', o) ->
+  c = r_owner (w_r w) /\ r_active (w_r w) = true /\ a <> b /\
+  (exists p, get_pair (r_map (w_r w)) a b = Some p /\ o = [p]) /\
+  get_pair (r_map (w_r w')) a b = None /\ get_pair (r_map (w_r w')) b a = None /\
+  w_pairs w' = w_pairs w.
+Proof. exact reach_remove. Qed.
+Print Assumptions C14_remove.
+
+(** ------------------------------------------------------------------ 3. registered pairs only *)
+(** pause / resume / setFeeOn / setFeeOff / setLocalRoles / issueLpToken succeed only on a
+    registered pair ([mgmt_target]: the pair address argument; pausing the router itself excluded) *)
+Theorem C14_registered_only_management : forall w op w' o addr,
+  rstep w op = Ok (w', o) -> mgmt_target op = Some addr -> Registered w addr.
+Proof. exact registered_only. Qed.
+Print Assumptions C14_registered_only_management.
+
+(** every hop of a successful multiPairSwap goes through a registered pair *)
+Theorem C14_registered_only_hops : forall w c tin amt hops w' ps,
+  ep_multi_swap w c tin amt hops = Ok (w', ps) -> forall h, In h hops -> Registered w (hop_addr h).
+Proof. exact multi_swap_hops_registered. Qed.
+Print Assumptions C14_registered_only_hops.
+
+Theorem C14_unregistered_hop_fails : forall w c tin amt hops h,
+  In h hops -> ~ Registered w (hop_addr h) -> is_ok (ep_multi_swap w c tin amt hops) = false.
+Proof. exact multi_swap_unregistered_fails. Qed.
+Print Assumptions C14_unregistered_hop_fails.
+
+(** on reachable worlds "registered" is exactly "listed by getAllPairsManagedAddresses":
+    removed pairs and pairs deployed outside the router are not registered, whatever tokens they report *)
+Theorem C14_registered_iff_listed : forall w addr, Reachable w ->
+  (Registered w addr <-> In addr (all_pairs (r_map (w_r w)))).
+Proof. exact reach_registered_iff_listed. Qed.
+Print Assumptions C14_registered_iff_listed.
+
+(** ------------------------------------------------------------------ 4. pass-through multi-hop *)
+(** router's own balances unchanged; the caller pays the input and receives exactly the returned
+    payments; no third party's balance moves *)
+Theorem C14_multihop_ledger : forall w c tin amt hops w' ps, c <> ROUTER ->
+  ep_multi_swap w c tin amt hops = Ok (w', ps) ->
+  (forall t, lget (w_led w') ROUTER t = lget (w_led w) ROUTER t) /\
+  (forall t, lget (w_led w') c t = lget (w_led w) c t - (if tin =? t then amt else 0) + sum_tok ps t) /\
+  (forall a t, a <> ROUTER -> a <> c -> lget (w_led w') a t = lget (w_led w) a t).
+Proof. exact multi_swap_ledger. Qed.
+Print Assumptions C14_multihop_ledger.
+
+(** the returned payments are the fixed-output residuals followed by the last output: at every
+    position of the hop list the call has run the preceding hops, runs this hop, then the rest *)
+Theorem C14_multihop_each_hop : forall w c tin amt hops w' ps,
+  ep_multi_swap w c tin amt hops = Ok (w', ps) ->
+  exists w0, w_r w0 = w_r w /\ w_pairs w0 = w_pairs w /\
+  forall pre h post, hops = pre ++ h :: post ->
+    exists wi lasti residi wj lastj residj,
+      run_hops w0 pre (tin, amt) [] = Ok (wi, lasti, residi) /\
+      do_hop wi h lasti residi = Ok (wj, lastj, residj) /\
+      exists wn lastn residn, run_hops wj post lastj residj = Ok (wn, lastn, residn) /\
+        ps = residn ++ [lastn] /\ w_pairs w' = w_pairs wn /\ w_r w' = w_r wn.
+Proof. exact multi_swap_each_hop. Qed.
+Print Assumptions C14_multihop_each_hop.
+
+(** each hop is the addressed pair's own swap step on that pair's state alone: same result, same
+    new pair state, no other pair and nothing in the registry touched; a fixed-input hop forwards
+    its whole input, a fixed-output hop yields exactly the wanted amount and sets the unspent input
+    aside as a residual (dropped when zero) *)
+Theorem C14_hop_is_pair_step : forall w addr f tw aw tin ain resid w' last' resid',
+  do_hop w (addr, f, tw, aw) (tin, ain) resid = Ok (w', last', resid') ->
+  exists pe p' o e,
+    registered w addr = Ok pe /\ (f = FIXED_IN \/ f = FIXED_OUT) /\
+    step (pe_p pe) (hop_op pe f tin ain tw aw) = Ok (p', o, e) /\ e_ext e = [] /\
+    w_pairs w' = upd_pair (w_pairs w) addr (set_pp pe p') /\ w_r w' = w_r w /\
+    fst last' = tw /\
+    (f = FIXED_IN -> o = [snd last'] /\ 0 < snd last' /\ resid' = resid) /\
+    (f = FIXED_OUT -> exists res, o = [aw; res] /\ snd last' = aw /\ 0 <= res /\ 0 < aw /\
+                                  resid' = if 0 <? res then resid ++ [(tin, res)] else resid).
+Proof. exact do_hop_spec. Qed.
+Print Assumptions C14_hop_is_pair_step.
+
+(** hence every hop follows the pair's documented swap formulas (C03) on that pair's reserves *)
+Theorem C14_hop_fixed_input_formula : forall w addr tw mn tin ain resid w' last' resid', Reachable w ->
+  do_hop w (addr, FIXED_IN, tw, mn) (tin, ain) resid = Ok (w', last', resid') ->
+  exists pe ord,
+    registered w addr = Ok pe /\ swap_order (loc pe tin) (loc pe tw) = Ok ord /\
+    p_state (pe_p pe) = ST_Active /\
+    is_floor (snd last') (ain * (M - p_fee (pe_p pe)) * rout (pe_p pe) ord)
+             (rin (pe_p pe) ord * M + ain * (M - p_fee (pe_p pe))) /\
+    0 < mn <= snd last' /\ fst last' = tw /\ resid' = resid.
+Proof. exact reach_hop_fixed_input. Qed.
+Print Assumptions C14_hop_fixed_input_formula.
+
+Theorem C14_hop_fixed_output_formula : forall w addr tw aw tin ain resid w' last' resid', Reachable w ->
+  do_hop w (addr, FIXED_OUT, tw, aw) (tin, ain) resid = Ok (w', last', resid') ->
+  exists pe ord charged,
+    registered w addr = Ok pe /\ swap_order (loc pe tin) (loc pe tw) = Ok ord /\
+    p_state (pe_p pe) = ST_Active /\ last' = (tw, aw) /\
+    is_floor (charged - 1) (rin (pe_p pe) ord * aw * M) ((rout (pe_p pe) ord - aw) * (M - p_fee (pe_p pe))) /\
+    0 < charged <= ain /\
+    resid' = (if 0 <? ain - charged then resid ++ [(tin, ain - charged)] else resid).
+Proof. exact reach_hop_fixed_output. Qed.
+Print Assumptions C14_hop_fixed_output_formula.
+
+(** a one-hop multiPairSwap is indistinguishable from the caller swapping on the pair directly *)
+Theorem C14_single_hop_fixed_input_is_direct_swap : forall w c addr tin amt tw mn w' ps, c <> ROUTER ->
+  ep_multi_swap w c tin amt [(addr, FIXED_IN, tw, mn)] = Ok (w', ps) ->
+  exists pe wd out,
+    registered w addr = Ok pe /\
+    ep_direct w addr (SwapIn c (loc pe tin) amt (loc pe tw) mn) = Ok (wd, [out]) /\
+    ps = [(tw, out)] /\ w_pairs w' = w_pairs wd /\ w_r w' = w_r wd /\
+    forall a t, lget (w_led w') a t = lget (w_led wd) a t.
+Proof. exact single_hop_fixed_input_is_direct_swap. Qed.
+Print Assumptions C14_single_hop_fixed_input_is_direct_swap.
+
+Theorem C14_single_hop_fixed_output_is_direct_swap : forall w c addr tin amt tw aw w' ps, c <> ROUTER ->
+  ep_multi_swap w c tin amt [(addr, FIXED_OUT, tw, aw)] = Ok (w', ps) ->
+  exists pe wd res,
+    registered w addr = Ok pe /\
+    ep_direct w addr (SwapOut c (loc pe tin) amt (loc pe tw) aw) = Ok (wd, [aw; res]) /\
+    0 <= res /\ ps = (if 0 <? res then [(tin, res)] else []) ++ [(tw, aw)] /\
+    w_pairs w' = w_pairs wd /\ w_r w' = w_r wd /\
+    forall a t, lget (w_led w') a t = lget (w_led wd) a t.
+Proof. exact single_hop_fixed_output_is_direct_swap. Qed.
+Print Assumptions C14_single_hop_fixed_output_is_direct_swap.
+
+(** if any hop fails, the whole call fails ... *)
+Theorem C14_failing_hop_fails_all : forall w c tin amt pre h post led0 wi lasti residi er,
+  debit (w_led w) c tin amt = Ok led0 ->
+  run_hops (set_led w (credit led0 ROUTER tin amt)) pre (tin, amt) [] = Ok (wi, lasti, residi) ->
+  do_hop wi h lasti residi = Err er ->
+  is_ok (ep_multi_swap w c tin amt (pre ++ h :: post)) = false.
+Proof. exact multi_swap_hop_fails. Qed.
+Print Assumptions C14_failing_hop_fails_all.
+
+(** ... and a failed transaction leaves the world as it was.  That the real VM reverts nested
+    synchronous calls is a fact about the VM (assumption A-VM): it is *modelled* here by the result
+    monad and the runner, and observed on the real contracts by the harness (state digest of router
+    and every pair unchanged after each failed multiPairSwap). *)
+Theorem C14_failed_step_unchanged : forall w op, is_ok (rstep w op) = false -> rstep_total w op = w.
+Proof. exact failed_step_unchanged. Qed.
+Print Assumptions C14_failed_step_unchanged.
+
+(** every pair contract of a reachable world (registered or not) keeps the pair invariant of C01
+    under everything the router does to it *)
+Theorem C14_pairs_keep_invariant : forall w x pe, Reachable w ->
+  pair_at (w_pairs w) x = Some pe -> PairInv (pe_p pe).
+Proof. exact reach_pairs_inv. Qed.
+Print Assumptions C14_pairs_keep_invariant.
+
+(** ------------------------------------------------------------------ non-vacuity
+    A reachable world with two registered pairs created in different ways (owner with explicit fees;
+    a user with public creation enabled), a foreign pair (address 12) reporting the tokens of the
+    registered pair 10 in the other order, liquidity everywhere, and tokens donated to the router.
+    A two-hop swap (fixed-output then fixed-input) succeeds, returns residual + last output and
+    leaves the router's balances alone; the same swap through the foreign pair, or with an
+    unreachable minimum on the second hop, fails as a whole; management calls are accepted on the
+    registered pair and refused on the foreign one; creating the existing pair in the other token
+    order is refused. *)
+Definition c14_example_ops : list rop :=
+  [CreatePair OWNER 1 2 0 (Some (300, 50)) 10; SetLp OWNER 10; Resume OWNER 10;
+   Direct 10 (Add OWNER 1000000 2000000 1 1);
+   SetCreation OWNER true; CreatePair 1 3 2 0 None 11; SetLp OWNER 11; Resume OWNER 11;
+   Direct 11 (Add OWNER 1000000 3000000 1 1);
+   DeployPair 2 1 300 50 12; SetLp OWNER 12; Direct 12 (SetState OWNER 1);
+   Direct 12 (Add OWNER 5000000 5000000 1 1);
+   DonateRouter OWNER 2 777].
+Definition c14_example_ledger : ledger :=
+  [(1, 1, 1000000000); (100, 1, 1000000000000); (100, 2, 1000000000000); (100, 3, 1000000000000)].
+
+Example C14_nonvacuous :
+  let w := rrun (init_world c14_example_ledger 1) c14_example_ops in
+  r_map (w_r w) = [(1, 2, 10); (3, 2, 11)] /\ map fst (w_pairs w) = [10; 11; 12] /\
+  lget (w_led w) ROUTER 2 = 777 /\
+  (match rstep w (MultiSwap 1 1 10000 [(10, 1, 2, 5000); (11, 0, 3, 1)]) with
+   | Ok (w', o) => o = [1; 7486; 3; 1658] /\ lget (w_led w') ROUTER 2 = 777 /\ lget (w_led w') ROUTER 1 = 0 /\
+                   lget (w_led w') 1 1 = 1000000000 - 10000 + 7486 /\ lget (w_led w') 1 3 = 1658
+   | Err _ => False
+   end) /\
+  is_ok (rstep w (MultiSwap 1 1 10000 [(10, 1, 2, 5000); (12, 0, 1, 1)])) = false /\
+  is_ok (rstep w (MultiSwap 1 1 10000 [(10, 1, 2, 5000); (11, 0, 3, 99999999)])) = false /\
+  map (fun op => is_ok (rstep w op))
+      [CreatePair OWNER 2 1 0 (Some (300, 50)) 13; Pause OWNER 12; RSetFeeOn OWNER 12 1 1; SetLocalRoles 1 12;
+       Pause OWNER 10; RSetFeeOn OWNER 10 1 1; SetLocalRoles 1 10; RemovePair OWNER 2 1]
+    = [false; false; false; false; true; true; true; true].
+Proof. vm_compute. repeat split. Qed.
